@@ -95,6 +95,15 @@ func c16BCE(c *Check, a *Anchors) {
 			pk = "task"
 		}
 		k := pk + "|" + shapeOf(s.FB.Info(), s.Node.(ast.Expr))
+		if _, listed := bceReviewed[k]; !listed {
+			// the indexed slice bundled into a small struct of the package (`items.keys[i]` for `keys[i]`): the reviewed
+			// entry of the same operand TYPE applies when it demands a guard, which is then checked on this operand
+			if alt := bundleShape(s.FB, s.Node.(ast.Expr)); alt != "" {
+				if e2, ok := bceReviewed[pk+"|"+alt]; ok && e2.guard != "" {
+					k = pk + "|" + alt
+				}
+			}
+		}
 		key := ordinal(ord, k)
 		ent, ok := bceReviewed[k]
 		used[k]++
@@ -496,4 +505,34 @@ func lenOfNonEmptyPkgVar(p *Prog, info *types.Info, e ast.Expr) string {
 		return v.Name()
 	}
 	return ""
+}
+
+
+// bundleShape: for `v.f[i]` where v is a local of an unexported struct type of the same package, the shape of `<type of v.f>[i]`.
+func bundleShape(fb *FuncBody, e ast.Expr) string {
+	info := fb.Info()
+	ix, ok := ast.Unparen(e).(*ast.IndexExpr)
+	if !ok {
+		return ""
+	}
+	sel, ok := ast.Unparen(ix.X).(*ast.SelectorExpr)
+	if !ok {
+		return ""
+	}
+	v := varOf(info, sel.X)
+	if v == nil || v.IsField() || (v.Parent() != nil && v.Pkg() != nil && v.Parent() == v.Pkg().Scope()) {
+		return ""
+	}
+	nt := namedOf(v.Type())
+	if nt == nil || nt.Obj().Exported() || nt.Obj().Pkg() == nil || nt.Obj().Pkg().Path() != fb.Pkg.PkgPath {
+		return ""
+	}
+	if _, isStruct := nt.Underlying().(*types.Struct); !isStruct {
+		return ""
+	}
+	tv, ok := info.Types[ix.X]
+	if !ok {
+		return ""
+	}
+	return types.TypeString(tv.Type, shortQual) + "[" + shapeOf(info, ix.Index) + "]"
 }
